@@ -25,6 +25,8 @@ type C03Case struct {
 	EncSeed  []byte    `json:"enc_seed,omitempty"`
 	Files    []C03File `json:"files,omitempty"`
 	JSONDoc  string    `json:"json_doc,omitempty"` // for json: the document text (built by the generator together with Pairs = expected leaves)
+	// JSONDepth: SecRequestBodyJsonDepthLimit (0: the default); documents nested deeper must be flagged, not cut silently
+	JSONDepth int `json:"json_depth_limit,omitempty"`
 	XMLDoc   string    `json:"xml_doc,omitempty"`
 	XMLAttrs []string  `json:"xml_attrs,omitempty"`
 	XMLTexts []string  `json:"xml_texts,omitempty"`
@@ -234,6 +236,7 @@ func genC03(t *rapid.T) *C03Case {
 		}
 		c.JSONDoc = root.text()
 		root.flatten("json", &c.Pairs)
+		c.JSONDepth = rapid.SampledFrom([]int{0, 0, 1, 2, 3, 4}).Draw(t, "jdepthlimit")
 	case "xml":
 		var sb strings.Builder
 		sb.WriteString("<root")
@@ -325,6 +328,9 @@ func (c *C03Case) conf() string {
 	switch c.Carrier {
 	case "json":
 		sb.WriteString("SecAction \"id:90,phase:1,pass,ctl:requestBodyProcessor=JSON\"\n")
+		if c.JSONDepth > 0 {
+			fmt.Fprintf(&sb, "SecRequestBodyJsonDepthLimit %d\n", c.JSONDepth)
+		}
 	case "xml":
 		sb.WriteString("SecAction \"id:90,phase:1,pass,ctl:requestBodyProcessor=XML\"\n")
 	}
@@ -551,6 +557,13 @@ func checkC03(c *C03Case) Result {
 			}
 			if collide {
 				res.Labels = append(res.Labels, "json-colliding-keys")
+			}
+			if c.JSONDepth > 0 {
+				if excused {
+					res.Labels = append(res.Labels, "json-depth-limit-flagged")
+				} else {
+					res.Labels = append(res.Labels, "json-within-depth-limit")
+				}
 			}
 			if !expect("ARGS_POST", c.Pairs) {
 				return res
